@@ -2,8 +2,12 @@ from props import COMMON_TRUST
 
 
 def nontrivial(tok, res):
-    if tok[0] == "reg":
+    if tok[0] in ("reg", "regg"):
         return True
+    if tok[0] == "seed":
+        return res != "err"
+    if tok[0] == "reset":
+        return tok[3] != "r1-8"
     if tok[0] == "view":
         return "used=;" not in res.split("udp[")[0] or "used=;" not in res.split("udp[")[1]
     return tok[0] in ("fwdexit", "squat")
@@ -18,29 +22,58 @@ PROP = {
         "Frp.C09.register_err_unchanged", "Frp.C09.close_frees_port", "Frp.C09.reacquire_same",
         "Frp.C09.take_reserves", "Frp.C09.release_keeps_reserved", "Frp.C09.udp_double_release_witness",
         "Frp.C09.udp_double_release_fixed", "Frp.C09.inv_register", "Frp.C09.inv_close",
+        # tcp load-balancing groups inside the same invariant
+        "Frp.C09.inv_registerG", "Frp.C09.exclusive_plain", "Frp.C09.group_one_port", "Frp.C09.registerG_ok",
+        "Frp.C09.registerG_err_unchanged", "Frp.C09.listen_failed_unchanged", "Frp.C09.close_member_keeps_port",
+        "Frp.C09.closesSocket_plain",
+        # allowPorts configuration -> Complete -> NewManager seed set
+        "Frp.C09.seed_exact", "Frp.C09.complete_exact", "Frp.C09.seedNat_exact", "Frp.C09.whitelisted_config",
+        "Frp.C09.outside_config_refused", "Frp.C09.outside_config_refusedG",
     ],
     "engines": [
-        {"name": "ports", "quick_n": 6000, "thorough_n": 30000, "thorough_seeds": 6,
+        {"name": "ports", "quick_n": 12000, "thorough_n": 40000, "thorough_seeds": 6,
          "nontrivial": nontrivial,
-         "result_class": lambda r: r.split(":")[0] + ":" + (r.split(":")[1] if r.startswith("err") else "") if ":" in r and not r.startswith("tcp[") else ("view" if r.startswith("tcp[") else r)},
+         "result_class": lambda r: ("view" if r.startswith("tcp[") else "seedset" if r.startswith("tcp=") else
+                                    r.split(":")[0] + ":" + (r.split(":")[1] if r.startswith("err") else "")
+                                    if ":" in r else r)},
     ],
-    "rule": "ports engine: generated register/close histories from three sessions through the real "
-            "Control.RegisterProxy/CloseProxy on a hand-assembled ResourceController with real ports.Manager "
-            "and real loopback sockets (block of 10 ports, 8 allowed), requested ports 0 / in range / out of "
-            "range / negative / >65535, duplicate names, quotas 0/2/3/5, foreign processes binding and "
-            "releasing ports, ports grabbed between Acquire and Listen (gate), and the udp forwarder's "
-            "deferred Close scheduled by an explicit op (gate); `view` compares free/used/OS-bound sets. "
-            "Non-trivial = every registration attempt, every non-empty view, every gate/foreign-socket op; "
-            "distinct = distinct (op line, result)",
+    "rule": "ports engine: every `reset` builds a real server.Service with server.NewService from a ServerConfig "
+            "whose allowPorts were generated (1-5 entries on a block of 10 loopback ports: single ports and ranges, "
+            "touching / overlapping / nested / repeated / start>end, sorted, reversed or shuffled; half of the resets "
+            "use the plain block r1-8), written as struct literal, --allow_ports flag text, TOML or legacy ini, and "
+            "passed through ServerConfig.Complete; the Service's own port managers, TCPGroupCtl and proxy.Manager are "
+            "then driven by generated register/close histories from three sessions through the real "
+            "Control.RegisterProxy/CloseProxy with real loopback sockets: plain tcp/udp proxies and tcp proxies "
+            "with loadBalancer.group (two groups, server-chosen and fixed group ports, second and later members, "
+            "wrong port, wrong key, dissolve and re-request), requested ports 0 / in block / out of block / "
+            "negative / >65535, duplicate names, quotas 0/2/3/5, foreign processes binding and releasing ports, "
+            "ports grabbed between Acquire and Listen (gates, also the group's), and the udp forwarder's deferred "
+            "Close scheduled by an explicit op (gate); every granted port (fixed, server-chosen, group) is judged "
+            "against the union of the entries computed by the model of the configuration path, `view` compares "
+            "free/used/OS-bound sets. `seed` ops take generated allowPorts (absolute ports anywhere in 1..65535, "
+            "same shapes, wide ranges, no entry at all) through the same configuration path and "
+            "ports.NewManager as NewService calls it, and compare the tcp and udp free sets with the union. "
+            "Non-trivial = every registration attempt, every seed set, every reset with a generated allow list, "
+            "every non-empty view, every gate/foreign-socket op; distinct = distinct (op line, result)",
     "trusted": COMMON_TRUST + [
-        "model Frp/Model/Ports.lean written by hand (ports.Manager, TCPProxy/UDPProxy Run/Close non-group path, "
-        "quota/name bookkeeping of RegisterProxy/CloseProxy, OS socket table); tied by the ports engine",
-        "verifhook gates tcp.run.acquired / udp.run.acquired / udp.forwarder.exit (tag verif) and ports.Manager.VerifDump",
+        "model Frp/Model/Ports.lean written by hand (ports.Manager, TCPProxy/UDPProxy Run/Close, the tcp group path "
+        "TCPGroupCtl.Listen / TCPGroup.Listen / CloseListener big-step — the group's port, key and real port are "
+        "read off a live member —, quota/name bookkeeping of RegisterProxy/CloseProxy, OS socket table) and "
+        "Frp/Model/AllowPorts.lean written by hand (PortsRange meaning, ServerConfig.Complete on AllowPorts = "
+        "identity, NewManager's seeding loop, NewService seeding both managers from the same list; the textual "
+        "form is C18's Frp/Model/ConfNum.lean); tied by the ports engine",
+        "verifhook gates tcp.run.acquired / udp.run.acquired / tcpgroup.listen.acquired / udp.forwarder.exit (tag "
+        "verif) and ports.Manager.VerifDump; the harness reads the unexported Service.rc / Service.pxyManager "
+        "pointers through reflection (read-only) to drive the managers NewService built",
         "the random port choice is relational: the implementation's observed choice is checked to be a free, "
         "available port and a refusal is accepted only when at least min(5,|free|) free ports are unavailable",
     ],
     "assumptions": [
-        "grouped tcp proxies (TCPGroup.Listen) are covered by C13's model, not by this one",
+        "tcp groups are modelled sequentially (register / close one at a time, as under the controller lock); "
+        "their interleavings, connection hand-off and the http / tcpmux groups are C13's",
+        "allowPorts entries with negative fields or covering port 0 are outside the driven domain (the seed "
+        "theorem covers them); an empty allowPorts (= every port) is driven by `seed` ops only, the stateful "
+        "histories always run on a non-empty list",
         "interleavings other than the two gated windows (acquire|listen, close|forwarder exit) are not driven; "
         "the reserved-port path of Acquire is proved safe only for atomic acquire+listen (sequential histories)",
         "the 24 h cleaning of reserved ports is not modelled",
@@ -50,7 +83,7 @@ PROP = {
 META = {
     "engine": "lean+harness(ports)",
     "design_ref": "DESIGN.md §6 C09",
-    "technique": "Lean 4 inductive invariant over all register/close/foreign-socket histories (partition, ownership, accounting = bound, quota) + differential correspondence with real ports.Manager / TCPProxy / UDPProxy / Control on real sockets",
-    "text": "Proof: for every allow set, quota and history (any requested ports, any random choices, failed listens, foreign processes binding ports, the udp forwarder's late Close) the model's reachable states satisfy: free/used partition the allow set; every live proxy is the recorded owner of its port; every port recorded as used is held by a live proxy (accounting = what is bound); no two live proxies of one protocol share a port; every live port is allowed; per-session quota is never exceeded; a refused registration changes no owner, no quota, no free set; a closed proxy's port is free at once; a name gets its reserved port back while it is free. The pinned tree violated accounting = bound (UDPProxy.Close released twice; witness theorem, reproduced on the real code by the gate-scheduled history) and was repaired by /repo commit 41db3ad; the model is of the repaired code. Tie: 6000 generated ops per quick run on the real code with real sockets.",
-    "note": "Trusted: Lean kernel; the hand-written model and the ports engine (generators, gates, OS probing by bind attempts on loopback). Grouped tcp ports are C13's. Acquire|Listen interleavings between DIFFERENT proxies are only exercised through the grab gate (a foreign process), not between two frp proxies.",
+    "technique": "Lean 4 inductive invariant over all register/close/foreign-socket histories incl. tcp groups (partition, ownership, accounting = bound, one port per group, quota) + exact-union theorem for the allowPorts -> Complete -> NewManager seed path + differential correspondence with a real server.Service (NewService from generated configurations), its ports.Manager / TCPGroupCtl / TCPProxy / UDPProxy / Control on real sockets",
+    "text": "Proof: for every list of allowPorts entries (single ports and ranges, overlapping, touching, repeated, empty, in any order, or none) the set the port managers are seeded with after ServerConfig.Complete is exactly the union of the entries (seed_exact), and for every allow set, quota and history (plain tcp/udp proxies and tcp load-balancing group members, any requested ports, any random choices, failed listens, foreign processes binding ports, the udp forwarder's late Close) the model's reachable states satisfy: free/used partition the allow set; every live proxy's port is recorded as used and a plain proxy is its recorded owner; every port recorded as used is held by a live proxy (accounting = what is bound); two live proxies of one protocol on one port are the same proxy or members of one group, and all members of a group sit on one port; every live port is covered by an operator entry (whitelisted_config) and a fixed request outside the entries is refused; per-session quota is never exceeded; a group member is told the port the group listens on (the founder a port nobody held, later members the port of the live members, the requested port if one was fixed); a refused registration (also wrong group port / key) changes no owner, no quota, no free set; the port of a closed plain proxy or of a group's last member is free at once, while a member leaving a group that still has members changes no manager; a name gets its reserved port back while it is free. The pinned tree violated accounting = bound (UDPProxy.Close released twice; witness theorem, reproduced on the real code by the gate-scheduled history) and was repaired by /repo commit 41db3ad; the model is of the repaired code. Tie: 12000 generated ops per quick run on a real server.Service (built by NewService from generated allowPorts configurations in four textual forms) with real sockets.",
+    "note": "Trusted: Lean kernel; the hand-written model and the ports engine (generators, gates, OS probing by bind attempts on loopback). Tcp groups are covered sequentially here (their interleavings are C13's). Acquire|Listen interleavings between DIFFERENT proxies are only exercised through the grab gate (a foreign process), not between two frp proxies.",
 }
